@@ -46,7 +46,11 @@ def build(recipe):
         fracs = [pp.PlaneFracture(np.array(f, dtype=float).T + o[:, None])
                  for f in recipe["fractures"]]
     net = pp.create_fracture_network(fracs, domain)
-    if recipe["mesh"] == "cartesian":
+    if recipe["mesh"] == "tensor_grid":
+        # uniform tensor grid requested through a target cell size that need not divide
+        # the domain extent (the mesher rounds the number of cells)
+        mdg = pp.create_mdg("tensor_grid", {"cell_size": float(recipe["h"])}, net)
+    elif recipe["mesh"] == "cartesian":
         n = recipe["n"]
         args = {"cell_size_x": L[0] / n[0], "cell_size_y": L[1] / n[1]}
         if dim == 3:
@@ -147,6 +151,19 @@ def random_2d(rng, mesh=None, max_fracs=3, axis_aligned=None):
         r["n"] = [Lx * k, Ly * k]
     else:
         r["h"] = float(rng.choice([0.5, 0.75, 1.0]))
+    return r
+
+
+def tensor_variant(rng, recipe):
+    """Turn a Cartesian recipe into a "tensor_grid" one with a target cell size that does
+    not divide the domain extent but rounds to k cells per unit length, so the integer
+    fracture coordinates still are grid lines."""
+    r = copy.deepcopy(recipe)
+    k = int(rng.integers(1, 3))
+    eps = float(rng.choice([-1, 1]) * rng.uniform(0.03, 0.1))
+    r["mesh"] = "tensor_grid"
+    r["h"] = 1.0 / (k + eps)
+    r.pop("n", None)
     return r
 
 
